@@ -26,7 +26,7 @@ def BOUNDS(tier):
 
 
 def REQUIRED_COVER(tier):
-    return {'accept', 'reject:duplicate', 'reject:weight', 'reject:exact-two-thirds', 'reject:empty-set', 'reject:invalid', 'reject:foreign', 'n:3'}
+    return {'accept', 'reject:duplicate', 'reject:weight', 'reject:exact-two-thirds', 'reject:empty-set', 'reject:invalid', 'reject:foreign', 'n:3', 'parsed-descriptors'}
 
 
 MAGIC = bytes.fromhex('706e0bc5')
@@ -78,17 +78,28 @@ def world(seed):
     return _W[seed]
 
 
-def case_sigs(rec, weights, seq, blk):
+def case_sigs(rec, weights, seq, blk, parsed=False):
     from pytoniq_core.proof.check_proof import check_block_signatures
     from pytoniq_core.tlb.config import ValidatorDescr, SigPubKey
     from pytoniq_core.tl.block import BlockIdExt
     w = world(rec.seed)
     n = len(weights)
     seq = [tuple(s) for s in seq]
-    args = {'weights': [str(x) for x in weights], 'seq': [list(s) for s in seq], 'blk': blk}
+    args = {'weights': [str(x) for x in weights], 'seq': [list(s) for s in seq], 'blk': blk, 'parsed': parsed}
     weights = [int(x) for x in weights]
     rec.case('sigset')
     nodes = [ValidatorDescr('validator', SigPubKey(w.pubs[i]), weights[i]) for i in range(n)]
+    if parsed:
+        # the validator set as it comes from the chain: descriptors PARSED from their block.tlb encoding
+        # (validator#53 public_key:SigPubKey weight:uint64 / validator_addr#73 ... adnl_addr:bits256; ed25519_pubkey#8e81278a)
+        from pytoniq_core.boc import Builder
+        nodes = []
+        for i in range(n):
+            b = Builder().store_uint(0x73 if i % 2 else 0x53, 8).store_uint(0x8e81278a, 32).store_bytes(w.pubs[i]).store_uint(weights[i], 64)
+            if i % 2:
+                b.store_bytes(bytes(32))
+            nodes.append(ValidatorDescr.deserialize(b.end_cell().begin_parse()))
+        rec.covered('parsed-descriptors')
     rh, fh = w.blocks[blk]
     bid = BlockIdExt(-1, -(1 << 63), 100 + blk, rh, fh)
     entries, signers, valid = [], [], True
@@ -109,7 +120,7 @@ def case_sigs(rec, weights, seq, blk):
     except Exception as e:
         got = False
     rec.trace()
-    rec.state((tuple(weights), tuple(seq), blk))
+    rec.state((tuple(weights), tuple(seq), blk, parsed))
     if seq:
         rec.nontriv((tuple(weights), tuple(seq), blk))
     if n == 3:
@@ -173,6 +184,8 @@ def shard_n(rec, n, part, parts):
             if i % parts != part:
                 continue
             case_sigs(rec, wv, seq, i % 2)
+            if max(wv, default=0) >= 2 ** 53 or i % 16 == 0:
+                case_sigs(rec, wv, seq, i % 2, parsed=True)
     rec.sample({'weights': [1, 1, 1][:n], 'signatures': [['valid', 0], ['valid', 0], ['valid', 0]], 'expect': 'reject (one validator counted three times)'})
 
 
